@@ -281,12 +281,7 @@ func NewNXRangeByOfsNBits(ofs int, nBits int) *NXRange {
 func (n *NXRange) ToUint32Mask() uint32 {
 	start := n.start
 	maxLength := 32
-	var end int
-	if n.end != 0 {
-		end = n.end
-	} else {
-		end = maxLength
-	}
+	end := n.end
 	mask1 := ^uint32(0)
 	mask1 = mask1 >> uint32(maxLength-(end-n.start+1))
 	mask1 = mask1 << uint32(start)
